@@ -71,6 +71,7 @@ type sysRun struct {
 	Cancel   string            `json:"cancel,omitempty"`
 	WatchErr string            `json:"watchErr,omitempty"` // "" | "wait:<n>:<j>": the watcher reports a fatal error at that point
 	EnvDel   []jid             `json:"envDel,omitempty"`   // objects another actor deletes before this run
+	Initial  []jid             `json:"initial,omitempty"`  // objects whose current status (Current, live generation/uid) the watcher reports before its sync event
 }
 
 type sysIn struct {
@@ -219,19 +220,22 @@ func (w *scriptedWatcher) Watch(ctx context.Context, _ object.ObjMetadataSet, _ 
 	w.once.Do(func() { close(w.started) })
 	go func() {
 		defer close(out)
-		select {
-		case <-w.syncGate:
-		case <-ctx.Done():
-			return
-		}
-		select {
-		case out <- pollevent.Event{Type: pollevent.SyncEvent}:
-		case <-ctx.Done():
-			return
-		}
+		synced := false
+		gate := w.syncGate
 		for {
 			select {
+			case <-gate:
+				gate = nil // a closed channel would be selected forever
+				if !synced {
+					synced = true
+					select {
+					case out <- pollevent.Event{Type: pollevent.SyncEvent}:
+					case <-ctx.Done():
+						return
+					}
+				}
 			case se := <-w.ch:
+				// (informers' initial adds can precede the sync event)
 				select {
 				case out <- se.e:
 					close(se.ack)
@@ -600,15 +604,39 @@ func runOne(c *fakecluster.Cluster, run sysRun) (out runOut) {
 			DryRunStrategy: dry, PrunePropagationPolicy: prop, InventoryPolicy: policy, ValidationPolicy: vpol})
 	}
 
-	if run.Cancel == "before-sync" {
+	// what happens between the plan event and the watcher's sync event: initial statuses, cancellation before sync
+	beforeSync := func() {
+		if run.Opts.Dry != 0 {
+			return // dry-runs use the library's blind watcher
+		}
 		select {
 		case <-sw.started:
-		case <-time.After(2 * time.Second):
+		case <-stop:
+			return
+		case <-time.After(5 * time.Second):
+			return
 		}
-		cancel()
-		time.Sleep(5 * time.Millisecond)
+		for _, j := range run.Initial {
+			k, ok := keyOf(j)
+			if !ok {
+				continue
+			}
+			live := c.Get(k)
+			if live == nil {
+				continue
+			}
+			sw.send(pollevent.Event{Type: pollevent.ResourceUpdateEvent, Resource: &pollevent.ResourceStatus{
+				Identifier: fromJid(j), Status: status.CurrentStatus, Resource: live}}, stop)
+		}
+		if len(run.Initial) > 0 {
+			sw.fence(stop)
+		}
+		if run.Cancel == "before-sync" {
+			cancel()
+			time.Sleep(5 * time.Millisecond)
+		}
+		close(sw.syncGate)
 	}
-	close(sw.syncGate)
 
 	// ---- reader + phase driver ----
 	waitIdx := -1
@@ -760,6 +788,7 @@ loop:
 			out.Events = append(out.Events, ce)
 			switch e.Type {
 			case event.InitType:
+				go beforeSync()
 				groups = e.InitEvent.ActionGroups
 				for _, g := range groups {
 					if g.Action == event.WaitAction {
